@@ -10,8 +10,9 @@
  *   level      : |10 log10(E_out[k]/E_in[k])| <= LEVEL_DB
  *   separation : every other output channel >= SEP_DB below the active one
  *   sign       : <in[k] delayed, out[k]> > 0
- * Thresholds: measured on the unchanged tree over the thorough space: worst level error 0.36 dB, worst separation 41 dB (see the
- * worst_* counters of every run) -> LEVEL_DB 1.0 (the value part `ms` uses), SEP_DB 20 (statement-level: "no swap").
+ * Thresholds: measured on the unchanged tree over the thorough space (3888 runs): worst level error 0.26 dB, worst LFE-channel level error
+ * 2.68 dB, worst separation > 200 dB (the silent inputs decode to digital silence) - see the worst_* counters of every run ->
+ * LEVEL_DB 1.0 (the value part `ms` uses), LFE_LEVEL_DB 6.0, SEP_DB 20 (statement-level: "no swap").
  */
 #include <stdlib.h>
 #include <string.h>
